@@ -20,7 +20,8 @@ Record tcase := mkTCase {
   tc_code : N;                      (* verify(): 0 Ok, else error class, 99 panic *)
   tc_ver : N; tc_exp : N;           (* claims returned by verify() when Ok *)
   tc_status : N;                    (* router: 0 registered, 1 = 401, 2 = "expiration time is
-                                       in the past", 3 = other status, 99 = panic *)
+                                       in the past", 3 = other status, 99 = panic,
+                                       98 = router not run (JWKS configuration: verify() only) *)
   tc_lifetime : N                   (* seconds passed to SnapTunIdentityRegistry::register *)
 }.
 
@@ -59,7 +60,8 @@ Definition verdict (c : tcase) : N :=
     | Reject e => negb (tc_code c =? err_code e)
     | Panicked _ => negb (tc_code c =? 99)
     end in
-  let mis_router :=
+  let no_router := tc_status c =? 98 in
+  let mis_router := negb no_router &&
     match m with
     | Accept cl =>
       match granted_lifetime (tc_now c) cl with
@@ -76,7 +78,7 @@ Definition verdict (c : tcase) : N :=
   let in_class := match tc_claims c with Some cl => malformed_aud cl | None => false end in
   let known := impl_accept && negb spec && loose && in_class in
   let wrong_verdict := negb (Bool.eqb impl_accept spec) && negb known in
-  let router_wrong := negb (Bool.eqb (tc_status c =? 1) (negb impl_accept)) in
+  let router_wrong := negb no_router && negb (Bool.eqb (tc_status c =? 1) (negb impl_accept)) in
   let lifetime_wrong :=
     (tc_status c =? 0) && (tc_exp c + TOLERANCE <? tc_now c + tc_lifetime c) in
   (if mis_verify || mis_router then 1 else 0) +
